@@ -106,3 +106,20 @@ func vDiffMandatory(prefix int, n int) {
 func VC_C16_mand_66() { vDiffMandatory(0x66, 16) }
 func VC_C16_mand_f2() { vDiffMandatory(0xF2, 16) }
 func VC_C16_mand_f3() { vDiffMandatory(0xF3, 16) }
+
+
+// vDiff66: the operand-size prefix 66 (the one legacy prefix the Go compiler puts in front
+// of ordinary one-byte opcodes: 16-bit moves, compares, tests) followed by an optional
+// REX and an opcode byte in [lo, hi].
+func vDiff66(lo, hi int, n int) {
+	src := verifBytes("src", n)
+	verifAssume(src[0] == 0x66)
+	vPrefixBound(src[1:], 0)
+	k := 1
+	if vIsREX(src[1]) {
+		k = 2
+	}
+	verifAssume(int(src[k]) >= lo)
+	verifAssume(int(src[k]) <= hi)
+	vAgree(src)
+}
